@@ -178,6 +178,93 @@ def h_load(fn: int, fmt_sel: int, ot_sel: int, name_sel: int, explicit_fmt: bool
     return True
 
 
+# ---- a path whose content changes between two loads -------------------------------------------------------------------------------------
+import molli.ftypes.cdxml as CX
+_REAL_ET = CX.et
+CUR = {}
+
+
+class _ET:
+    """xml.etree for molli.ftypes.cdxml in the symbolic runs: parse() of the virtual document path reads the file it currently stands for
+    (CrossHair does not let traced code write files; the real replay copies the file instead)"""
+
+    def __getattr__(self, n):
+        return getattr(_REAL_ET, n)
+
+    @staticmethod
+    def parse(path, *a, **k):
+        return _REAL_ET.parse(CUR.get(str(path), path), *a, **k)
+
+
+def _docs():
+    from harness.C13 import _page_files            # two small generated three-fragment pages whose first fragments differ
+    f = _page_files()
+    return [f[0], f[1]]
+
+
+def set_cdxml(which):
+    src = _docs()[which]
+    if REAL:
+        import shutil
+        p = os.path.join(_TMP, "doc.cdxml")
+        shutil.copyfile(src, p)
+        return p
+    CX.et = _ET()
+    CUR["/m/doc.cdxml"] = str(src)
+    return "/m/doc.cdxml"
+
+
+TEXT2 = {"xyz": B.dumps_xyz() + A.dumps_xyz() + A.dumps_xyz(), "mol2": B.dumps_mol2() + A.dumps_mol2() + A.dumps_mol2()}
+
+
+def h_reload(fn: int, fmt_sel: int, ot_sel: int, first: int) -> bool:
+    """
+    the same path loaded twice with its content replaced in between (load / load_all; xyz, mol2, cdxml): each call agrees with the class-level
+    codec applied to what the file holds at that moment
+    pre: 0 <= fn <= 1 and 0 <= fmt_sel <= 2 and 0 <= ot_sel <= 3 and 0 <= first <= 1
+    post: _
+    """
+    fn, fmt, otype, first = pick(fn, 2), FMTS[pick(fmt_sel, 3)], OTYPES[pick(ot_sel, 4)], pick(first, 2)
+    cls = cls_of(otype)
+    if fn == 1 and cls is ConformerEnsemble:
+        return True                              # *_all with ensembles is documented as ambiguous
+    from crosshair.tracers import NoTracing
+    try:
+        # the selectors are concrete by now; the loads run outside the tracer, because CrossHair traces into the Python function behind a C-level
+        # wrapper such as functools.lru_cache and would make a cache on the loading path invisible
+        with NoTracing():
+            for step in (first, 1 - first):
+                if fmt == "cdxml":
+                    path = set_cdxml(step)
+                    doc = ml.CDXMLFile(_docs()[step])
+                    if fn == 0:
+                        got = [ml.load(path, otype=otype)]
+                        exp = [cls(doc._parse_fragment(doc.xfrags[0]))]
+                    else:
+                        got = ml.load_all(path, otype=otype)
+                        exp = [cls(doc._parse_fragment(fg)) for fg in doc.xfrags]
+                else:
+                    text = (TEXT if step == 0 else TEXT2)[fmt]
+                    path = put_file("doc." + fmt, text)
+                    if fn == 0:
+                        got = [ml.load(path, otype=otype)]
+                        exp = [getattr(cls, f"loads_{fmt}")(text)]
+                    else:
+                        got = ml.load_all(path, otype=otype)
+                        exp = getattr(cls, f"loads_all_{fmt}")(text)
+                if len(got) != len(exp):
+                    return False
+                for g, e in zip(got, exp):
+                    if type(g) is not cls or g.n_atoms != e.n_atoms or [int(a.element) for a in g.atoms] != [int(a.element) for a in e.atoms]:
+                        return False
+                    if fmt != "cdxml" and not same(g, e):
+                        return False
+            return True
+    finally:
+        if not REAL:
+            CX.et = _REAL_ET
+
+
 def h_load_cdxml(fn: int, ot_sel: int, name_sel: int, key_sel: int) -> bool:
     """
     load / load_all of a bundled CDXML file against CDXMLFile: objects of the requested type, lists where promised, keys and names honoured
@@ -280,7 +367,7 @@ def run(rep, tier):
                   "inputs": "generated 2-molecule xyz / mol2 texts (2 atoms each), bundled parser_demo.cdxml"}
     rep.outside = ["the openbabel parser/writer branches (openbabel is not installed)", "[selector-bound]: configuration cells are enumerated by the solver"]
     rep.assumptions = ["module-level open() of molli.reader / molli.writer is an in-memory text file model (replay uses real temporary files)"]
-    specs = [{"fn": "h_load", "timeout": 900, "split": s} for s in range(16)] + [{"fn": "h_load_cdxml", "timeout": 900, "split": s} for s in range(16)]
+    specs = [{"fn": "h_load", "timeout": 900, "split": s} for s in range(16)] + [{"fn": "h_load_cdxml", "timeout": 900, "split": s} for s in range(16)] + [{"fn": "h_reload", "timeout": 900}]
     specs += [{"fn": "h_dump", "timeout": 900, "split": s} for s in range(len(FMTS))]
     xh.run_obligations(rep, "harness.C09", specs)
     xh.known_witness(rep, "harness.C09")
